@@ -134,9 +134,12 @@ func (s *StoreManager) Deliver(
 			return err
 		}
 
-		// Emit message stored event.
+		// Emit message stored event.  Listeners run asynchronously and get their own copies of
+		// the addresses; the stored message keeps the originals.
 		event := delivery.Meta
 		event.ID = id
+		event.From = cloneAddress(event.From)
+		event.To = cloneAddresses(event.To)
 		s.ExtHost.Events.AfterMessageStored.Emit(&event)
 	}
 
@@ -147,18 +150,30 @@ func (s *StoreManager) Deliver(
 func cloneInbound(m *event.InboundMessage) *event.InboundMessage {
 	c := *m
 	c.Mailboxes = append([]string(nil), m.Mailboxes...)
-	if m.From != nil {
-		from := *m.From
-		c.From = &from
-	}
-	c.To = make([]*mail.Address, len(m.To))
-	for i, a := range m.To {
-		if a != nil {
-			to := *a
-			c.To[i] = &to
-		}
-	}
+	c.From = cloneAddress(m.From)
+	c.To = cloneAddresses(m.To)
 	return &c
+}
+
+// cloneAddress returns a copy of a, or nil.
+func cloneAddress(a *mail.Address) *mail.Address {
+	if a == nil {
+		return nil
+	}
+	c := *a
+	return &c
+}
+
+// cloneAddresses returns a slice of copies of the addresses in as.
+func cloneAddresses(as []*mail.Address) []*mail.Address {
+	if as == nil {
+		return nil
+	}
+	c := make([]*mail.Address, len(as))
+	for i, a := range as {
+		c[i] = cloneAddress(a)
+	}
+	return c
 }
 
 // GetMetadata returns a slice of metadata for the specified mailbox.
@@ -224,13 +239,14 @@ func (s *StoreManager) MailboxForAddress(mailbox string) (string, error) {
 	return s.AddrPolicy.ExtractMailbox(mailbox)
 }
 
-// MakeMetadata populates Metadata from a storage.Message.
+// MakeMetadata populates Metadata from a storage.Message.  The addresses are copied, so that
+// nobody holding the metadata (e.g. an event listener) can alter the stored message.
 func MakeMetadata(m storage.Message) *event.MessageMetadata {
 	return &event.MessageMetadata{
 		Mailbox: m.Mailbox(),
 		ID:      m.ID(),
-		From:    m.From(),
-		To:      m.To(),
+		From:    cloneAddress(m.From()),
+		To:      cloneAddresses(m.To()),
 		Date:    m.Date(),
 		Subject: m.Subject(),
 		Size:    m.Size(),
